@@ -22,7 +22,7 @@
 (* Liveness (fair delivery, time and polls): every message sent is          *)
 (* eventually reported by the polling scanner.                              *)
 (***************************************************************************)
-EXTENDS Cc14Scanner, PnScanner, PollingScanner, TLC
+EXTENDS Cc14Scanner, PnScanner, PollingScanner, TLC, Json
 
 CONSTANTS Chans,     \* channels in use
           V7,        \* 7-bit values
@@ -31,7 +31,9 @@ CONSTANTS Chans,     \* channels in use
           TOc, CAP,  \* timeout of the polling scanner (999 = Inf), age cap
           MaxSend,   \* bound on high-level sends
           MaxRt,     \* bound on inserted real-time messages
-          Orders     \* byte orders the (N)RPN sender uses, subset of {"msb", "lsb"}
+          Orders,    \* byte orders the (N)RPN sender uses, subset of {"msb", "lsb"}
+          Emitting,  \* TRUE: generation mode (`-simulate`): the receiver-side history is kept and printed
+          MaxN       \* generation mode: number of receiver-side events per printed behaviour
 
 TO == IF TOc = 999 THEN Inf ELSE TOc
 
@@ -39,15 +41,18 @@ VARIABLES wire,      \* sequence of [m |-> message, k |-> index within its encod
           s14, spn, spoll,            \* per channel scanner states
           sent14, sentPn,             \* per channel: messages handed to the senders
           rep14, repPn, repPoll,      \* per channel: messages reported so far
-          now, nsend, nrt
-vars == <<wire, s14, spn, spoll, sent14, sentPn, rep14, repPn, repPoll, now, nsend, nrt>>
+          now, nsend, nrt,
+          hist       \* generation mode only: what the receiver did and what each scanner answered
+vars == <<wire, s14, spn, spoll, sent14, sentPn, rep14, repPn, repPoll, now, nsend, nrt, hist>>
+
+Hist(e) == IF Emitting THEN Append(hist, e) ELSE hist
 
 Init == /\ wire = <<>> /\ now = 0 /\ nsend = 0 /\ nrt = 0
         /\ s14 = [c \in Chans |-> Cc14Init] /\ spn = [c \in Chans |-> PnInit]
         /\ spoll = [c \in Chans |-> PollInit]
         /\ sent14 = [c \in Chans |-> <<>>] /\ sentPn = [c \in Chans |-> <<>>]
         /\ rep14 = [c \in Chans |-> <<>>] /\ repPn = [c \in Chans |-> <<>>]
-        /\ repPoll = [c \in Chans |-> <<>>]
+        /\ repPoll = [c \in Chans |-> <<>>] /\ hist = <<>>
 
 Tagged(ms) == [i \in 1..Len(ms) |-> [m |-> ms[i], k |-> i]]
 
@@ -59,30 +64,32 @@ SendCc14(msg) ==
     /\ nsend < MaxSend /\ nsend' = nsend + 1
     /\ wire' = wire \o Tagged(Cc14Encode(msg))
     /\ sent14' = [sent14 EXCEPT ![msg[1]] = Append(@, msg)]
-    /\ UNCHANGED <<s14, spn, spoll, sentPn, rep14, repPn, repPoll, now, nrt>>
+    /\ UNCHANGED <<s14, spn, spoll, sentPn, rep14, repPn, repPoll, now, nrt, hist>>
 
 SendPn(msg, ord) ==
     /\ nsend < MaxSend /\ nsend' = nsend + 1
     /\ wire' = wire \o Tagged(PnEncodeSeq(msg, ord))
     /\ sentPn' = [sentPn EXCEPT ![msg[1]] = Append(@, msg)]
-    /\ UNCHANGED <<s14, spn, spoll, sent14, rep14, repPn, repPoll, now, nrt>>
+    /\ UNCHANGED <<s14, spn, spoll, sent14, rep14, repPn, repPoll, now, nrt, hist>>
 
 \* a System Real Time message may appear anywhere, also inside an encoding
 InsertRt(i, s) ==
     /\ nrt < MaxRt /\ nrt' = nrt + 1
     /\ wire' = SubSeq(wire, 1, i) \o <<[m |-> <<s, 0, 0>>, k |-> 0]>> \o SubSeq(wire, i + 1, Len(wire))
-    /\ UNCHANGED <<s14, spn, spoll, sent14, sentPn, rep14, repPn, repPoll, now, nsend>>
+    /\ UNCHANGED <<s14, spn, spoll, sent14, sentPn, rep14, repPn, repPoll, now, nsend, hist>>
 
 Deliver ==
     /\ wire # <<>>
     /\ LET m == Head(wire).m  c == MsgChannel(m) IN
        /\ wire' = Tail(wire)
        /\ IF c = None
-          THEN UNCHANGED <<s14, spn, spoll, rep14, repPn, repPoll>>
+          THEN /\ UNCHANGED <<s14, spn, spoll, rep14, repPn, repPoll>>
+               /\ hist' = Hist([op |-> "feed", m |-> m, o14 |-> <<>>, opn |-> <<>>, opoll |-> <<>>])
           ELSE LET a == Cc14Feed(s14[c], m)  b == PnFeed(spn[c], m)  p == PollFeed(spoll[c], m, now) IN
                /\ s14' = [s14 EXCEPT ![c] = a.st]     /\ rep14' = [rep14 EXCEPT ![c] = @ \o a.out]
                /\ spn' = [spn EXCEPT ![c] = b.st]     /\ repPn' = [repPn EXCEPT ![c] = @ \o b.out]
                /\ spoll' = [spoll EXCEPT ![c] = p.st] /\ repPoll' = [repPoll EXCEPT ![c] = @ \o p.out]
+               /\ hist' = Hist([op |-> "feed", m |-> m, o14 |-> a.out, opn |-> b.out, opoll |-> p.out])
     /\ UNCHANGED <<sent14, sentPn, now, nsend, nrt>>
 
 \* the first message of the wire that belongs to an encoding continues a partially delivered one
@@ -97,18 +104,37 @@ Poll(c) ==
     \* environment assumption, as in MC_Sender: inside an encoding only early polls
     /\ (c = BurstChan) => ~(Pending(c) /\ Late(spoll[c].at, now, TO))
     /\ spoll' = [spoll EXCEPT ![c] = p.st] /\ repPoll' = [repPoll EXCEPT ![c] = @ \o p.out]
+    /\ hist' = Hist([op |-> "poll", ch |-> c, opoll |-> p.out])
     /\ UNCHANGED <<wire, s14, spn, sent14, sentPn, rep14, repPn, now, nsend, nrt>>
 
 \* time passes only between encodings (environment assumption) and only while it matters
 Tick == /\ ~MidBurst
         /\ \E c \in Chans : Pending(c) /\ now - spoll[c].at < CAP
         /\ now' = now + 1
+        /\ hist' = Hist([op |-> "tick", dt |-> 1])
         /\ UNCHANGED <<wire, s14, spn, spoll, sent14, sentPn, rep14, repPn, repPoll, nsend, nrt>>
 
 Next == \/ \E msg \in Msgs14 : SendCc14(msg)
         \/ \E msg \in MsgsPn, ord \in Orders : SendPn(msg, ord)
         \/ \E i \in 0..Len(wire), s \in {248, 254} : InsertRt(i, s)
         \/ Deliver \/ Tick \/ \E c \in Chans : Poll(c)
+
+(* Generation mode (`tlc -simulate`): the same actions with the FULL value domain - 16 channels, every  *)
+(* parameter number and value, every MSB controller number except 6 -, one random draw per action kind *)
+(* (the reference to nsend keeps TLC from caching the draw as a constant).  A behaviour is printed as  *)
+(* the receiver-side history: every message delivered with what EACH of the three scanners reports    *)
+(* for it, every poll, every time step.  It is replayed into three real scanners fed the same stream.  *)
+Pick(S) == {RandomElement(IF nsend >= 0 THEN S ELSE {})}
+GenNext == \/ \E c \in Pick(Chans), n \in Pick((0..31) \ {6}), v \in Pick(0..16383) : SendCc14(<<c, n, v>>)
+           \/ \E c \in Pick(Chans), n \in Pick(0..16383), v \in Pick(0..127), r \in Pick({0, 1}), dt \in Pick({0, 1, 2}),
+                 ord \in Pick(Orders) : SendPn(<<c, n, v, r, 0, dt>>, ord)
+           \/ \E c \in Pick(Chans), n \in Pick(0..16383), v \in Pick(0..16383), r \in Pick({0, 1}), ord \in Pick(Orders) :
+                 SendPn(<<c, n, v, r, 1, 0>>, ord)
+           \/ \E i \in Pick(0..Len(wire)), s \in Pick({248, 250, 252, 254, 255}) : InsertRt(i, s)
+           \/ Deliver \/ Deliver \/ Tick \/ \E c \in Pick(Chans) : Poll(c)
+           \/ (\E c \in Chans : Pending(c)) /\ (\E c \in Pick({x \in Chans : Pending(x)}) : Poll(c))
+GenSpec == Init /\ [][GenNext]_vars
+Dump == (Emitting /\ Len(hist) = MaxN) => PrintT(<<"SYSB", ToJson(hist)>>)
 
 Fairness == WF_vars(Deliver) /\ WF_vars(Tick) /\ \A c \in Chans : WF_vars(Poll(c))
 Spec == Init /\ [][Next]_vars /\ Fairness
